@@ -79,6 +79,19 @@ Definition Skappa_p : pmap := map (fun kappa => ced_sum kappa c 0) (seq 0 (lengt
 Definition ced_p : pmap := Skappa_p.
 Definition Phi_ced (theta R : Q) : vec := pm_eval Skappa_p theta ++ [R; peval SI_p theta].
 Definition DPhi_ced (theta dtheta dR : Q) : vec := pm_push Skappa_p theta dtheta ++ [dR; peval (pderiv SI_p) theta * dtheta].
+
+(* effective degree (S_{s,i}, R), r = c = len c: a susceptible node of degree k has s susceptible, i infected and k-s-i recovered
+   neighbours with the trinomial probability k!/(s! i! (k-s-i)!) phiS^s phiI^i phiR^(k-s-i) / theta^k:
+   S_{s,i} = N sum_k c_k C(k,s) C(k-s,i) phiS^s phiI^i phiR^(k-s-i), row-major *)
+Definition ed_term (s i k : nat) (ck : Q) : list Q :=
+  pscale (N * ck * Qnat (binomial k s * binomial (k - s) i))
+         (pmul (ppow phiS_p s) (pmul (ppow phiI_p i) (ppow phiR_p (k - s - i)))).
+Fixpoint ed_sum (s i : nat) (cs : list Q) (k : nat) : list Q :=
+  match cs with [] => [] | ck :: cs' => padd (ed_term s i k ck) (ed_sum s i cs' (S k)) end.
+Definition Ssi_p : pmap :=
+  flat_map (fun s => map (fun i => ed_sum s i c 0) (seq 0 (length c))) (seq 0 (length c)).
+Definition Phi_ed (theta R : Q) : vec := pm_eval Ssi_p theta ++ [R].
+Definition DPhi_ed (theta dtheta dR : Q) : vec := pm_push Ssi_p theta dtheta ++ [dR].
 End Hierarchy.
 
 (* ---------------- what the wrappers pass on the rho path ---------------- *)
